@@ -9,7 +9,7 @@ ALLOWED_AXIOMS = {
 
 TRUSTED_BASE = [
     "Coq 8.16.1 kernel and its vm_compute machine (no native_compute); coqchk re-check in the thorough tier",
-    "Coq standard library (and std++ where imported); no axioms declared by this development (bin/check greps and reads Print Assumptions)",
+    "Coq standard library only (no std++, MathComp, Equations, Program or CoqHammer); no axioms declared or used by this development (bin/check greps and reads Print Assumptions)",
     "hand-written Gallina model of the anchored code, tied to /repo only by the correspondence run of this check (Go harness built from the working tree with -tags verif, outputs evaluated against the model by coqc/vm_compute)",
     "Go harness, generators, canonicalisation of observables, Python driver (a bug there can hide a divergence, it cannot make a false theorem check)",
     "no extraction is used",
